@@ -570,4 +570,118 @@ Theorem spec_roundtrip_dec strict f t : lfile_wf f -> table_of f = Some t ->
   dec_file decompress strict (enc_file compress f) = ROk t.
 Proof. intros W T. rewrite table_of_cells in T by exact W. injection T as <-. now apply dec_file_roundtrip. Qed.
 
+(* ---- whole file: validity ------------------------------------------------------------------------------------ *)
+Lemma nulls_agree cd : forall its dict contents,
+  items_contents cd dict its = Some contents ->
+  sumN (map (item_nulls cd) its) = fold_right N.add 0 (map content_nulls contents).
+Proof.
+  induction its as [|it r IH]; intros dict contents H; cbn [items_contents] in H.
+  - injection H as <-. reflexivity.
+  - destruct (item_content cd dict it) as [c|] eqn:IC; [|discriminate].
+    destruct (items_contents cd (next_dict dict c) r) as [cr|] eqn:ICr; [|discriminate].
+    cbn [option_map] in H. injection H as <-. cbn [map fold_right]. rewrite sumN_cons, (IH _ _ ICr). f_equal.
+    destruct it as [e vs|p]; cbn [item_content] in IC.
+    + injection IC as <-. reflexivity.
+    + destruct (page_cells cd dict p); [|discriminate]. injection IC as <-. reflexivity.
+Qed.
+
+(* strict layouts: dictionary page (if any) first and alone; every chunk of a row group has the rows of the first *)
+Definition rg_strict (cs : list lchunk) : Prop :=
+  Forall (fun c => its_shape (lc_items c) /\ sumN (map item_nvals (lc_items c)) = rg_rows cs) cs.
+
+Definition tus_of (c : chunk_res) : Z := match c with CHere o => cm_tus (co_meta o) | _ => 0%Z end.
+
+Lemma cols_out_tus : forall ls cs pos,
+  length ls = length cs ->
+  map (fun c => match cc_meta c with Some m => cm_tus m | None => 0%Z end) (snd (fst (enc_cols compress ls cs pos)))
+  = map tus_of (cols_out ls cs pos).
+Proof.
+  induction ls as [|l ls IH]; intros cs pos LEN; destruct cs as [|c cs]; try discriminate; [reflexivity|].
+  cbn [enc_cols cols_out].
+  destruct (enc_chunk compress l pos c) as [b cc] eqn:EC.
+  specialize (IH cs (pos + lenN b)).
+  destruct (enc_cols compress ls cs (pos + lenN b)) as [[bs ccs] pos'] eqn:ER. cbn [fst snd map] in *.
+  assert (Eb : lenN (chunk_bytes l pos c) = lenN b) by (unfold chunk_bytes; now rewrite EC).
+  rewrite Eb, <- IH by (cbn [length] in LEN; lia). f_equal.
+  unfold chunk_out, tus_of, chunk_meta. cbn [co_meta]. rewrite EC. cbn [snd].
+  unfold enc_chunk in EC. cbn zeta in EC. injection EC as _ <-. reflexivity.
+Qed.
+
+Lemma all_here_cols : forall ls cs pos, all_here (cols_out ls cs pos) = true.
+Proof. induction ls as [|l ls IH]; intros cs pos; [reflexivity|]. destruct cs; [reflexivity|]. cbn [cols_out all_here forallb chunk_out]. apply IH. Qed.
+
+Lemma valid_cols rg : forall ls cs pos,
+  Forall2 chunk_ok ls cs ->
+  Forall (fun c => its_shape (lc_items c) /\ rg_nrows rg = Z.of_N (sumN (map item_nvals (lc_items c)))) cs ->
+  map_rs (valid_chunk rg) (cols_out ls cs pos) = ROk (map (fun _ => tt) (cols_out ls cs pos)).
+Proof.
+  induction ls as [|l ls IH]; intros cs pos OK ST; [reflexivity|]. destruct cs as [|c cs]; [reflexivity|].
+  assert (OK1 : chunk_ok l c) by (inversion OK; assumption).
+  assert (OKr : Forall2 chunk_ok ls cs) by (inversion OK; assumption).
+  assert (ST1 : its_shape (lc_items c) /\ rg_nrows rg = Z.of_N (sumN (map item_nvals (lc_items c)))) by (inversion ST; assumption).
+  assert (STr : Forall (fun c => its_shape (lc_items c) /\ rg_nrows rg = Z.of_N (sumN (map item_nvals (lc_items c)))) cs) by (inversion ST; assumption).
+  destruct OK1 as [_ [contents IC]]. destruct ST1 as [SH NR].
+  cbn [cols_out map_rs map]. unfold chunk_out at 1, contents_of. rewrite IC.
+  rewrite (valid_chunk_enc l pos c contents rg SH IC NR (nulls_agree _ _ _ _ IC)). cbn [rbind].
+  rewrite (IH cs _ OKr STr). reflexivity.
+Qed.
+
+Lemma enc_rgs_cons ls cs r pos :
+  snd (fst (enc_rgs compress ls (cs :: r) pos))
+  = {| rg_cols := snd (fst (enc_cols compress ls cs pos));
+       rg_tbs := sumZ (map (fun c => match cc_meta c with Some m => cm_tus m | None => 0%Z end) (snd (fst (enc_cols compress ls cs pos))));
+       rg_nrows := Z.of_N (rg_rows cs) |} :: snd (fst (enc_rgs compress ls r (snd (enc_cols compress ls cs pos)))).
+Proof.
+  cbn [enc_rgs]. destruct (enc_cols compress ls cs pos) as [[bs ccs] pos1]. cbn [fst snd].
+  destruct (enc_rgs compress ls r pos1) as [[bs2 rs] pos2]. reflexivity.
+Qed.
+
+Lemma rgs_out_fst ls : forall rgs pos, map fst (rgs_out ls rgs pos) = snd (fst (enc_rgs compress ls rgs pos)).
+Proof.
+  induction rgs as [|cs r IH]; intros pos; [reflexivity|].
+  cbn [rgs_out map fst]. rewrite IH, enc_rgs_cons. reflexivity.
+Qed.
+
+Theorem valid_rgs ls : forall rgs pos,
+  Forall (rg_ok ls) rgs -> Forall rg_strict rgs ->
+  map_rs valid_rg (rgs_out ls rgs pos) = ROk (map (fun _ => tt) (rgs_out ls rgs pos)).
+Proof.
+  induction rgs as [|cs r IH]; intros pos OK ST; [reflexivity|].
+  assert (OK1 : rg_ok ls cs) by (inversion OK; assumption).
+  assert (OKr : Forall (rg_ok ls) r) by (inversion OK; assumption).
+  assert (ST1 : rg_strict cs) by (inversion ST; assumption).
+  assert (STr : Forall rg_strict r) by (inversion ST; assumption).
+  destruct OK1 as [LEN F2].
+  cbn [rgs_out map_rs map]. rewrite enc_rgs_cons. cbn [hd].
+  unfold valid_rg at 1.
+  rewrite (valid_cols _ ls cs pos F2).
+  - cbn [rbind rg_tbs rg_nrows]. rewrite all_here_cols. cbn [negb orb].
+    rewrite cols_out_tus by exact LEN.
+    assert (E : map (fun c => match c with CHere o => cm_tus (co_meta o) | CExternal _ => 0%Z end) (cols_out ls cs pos)
+                = map tus_of (cols_out ls cs pos)) by reflexivity.
+    rewrite E, Z.eqb_refl. cbn [guard rbind].
+    destruct (Z.leb_spec 0 (Z.of_N (rg_rows cs))) as [_|X]; [|lia]. cbn [guard rbind].
+    rewrite (IH _ OKr STr). reflexivity.
+  - cbn [rg_nrows]. unfold rg_strict in ST1. eapply Forall_impl; [|exact ST1].
+    intros c [SH NR]. split; [exact SH|now rewrite NR].
+Qed.
+
+Theorem valid_file_roundtrip strict f : lfile_wf f -> Forall rg_strict (l_rgs f) ->
+  valid_file decompress strict (enc_file compress f) = ROk tt.
+Proof.
+  intros W ST. unfold valid_file. rewrite scan_file_roundtrip by exact W. cbn [rbind].
+  destruct W as (LW & RW & FW).
+  unfold valid_out, file_out_of. cbn [fo_rgs fo_meta].
+  rewrite (valid_rgs _ _ 4 RW ST). cbn [rbind].
+  unfold file_meta. cbn [fm_nrows].
+  destruct (rgs_out (l_leaves f) (l_rgs f) 4) as [|x xs] eqn:E; [reflexivity|].
+  rewrite <- E. rewrite <- (map_map fst rg_nrows), rgs_out_fst, Z.eqb_refl. reflexivity.
+Qed.
+
+(* spec_roundtrip: the two halves together *)
+Theorem spec_roundtrip strict f t : lfile_wf f -> Forall rg_strict (l_rgs f) -> table_of f = Some t ->
+  dec_file decompress strict (enc_file compress f) = ROk t /\
+  valid_file decompress strict (enc_file compress f) = ROk tt.
+Proof. intros W S T. split; [now apply spec_roundtrip_dec|now apply valid_file_roundtrip]. Qed.
+
 End WithCodecs4.
